@@ -554,6 +554,37 @@ pub fn tm_apply(t: &Time, op: &TmOp) -> Out<Time> {
     }
 }
 
+/// the compound-assignment form of an operator op (None for the other operations)
+pub fn tm_apply_assign(t: &Time, op: &TmOp) -> Option<Out<Time>> {
+    match op {
+        TmOp::Tim(sub, n) => {
+            let r = Time::from_nanos(*n).unwrap();
+            Some(call(|| {
+                let mut x = *t;
+                if *sub {
+                    x -= r;
+                } else {
+                    x += r;
+                }
+                x
+            }))
+        }
+        TmOp::Dur(sub, s, ns) => {
+            let d = Duration::new(*s, *ns);
+            Some(call(|| {
+                let mut x = *t;
+                if *sub {
+                    x -= d;
+                } else {
+                    x += d;
+                }
+                x
+            }))
+        }
+        _ => None,
+    }
+}
+
 pub fn tm_expect(nanos: u64, off: i32, op: &TmOp) -> (u64, i32) {
     let day = ab::DAY_NS as i128;
     let m = |x: i128| x.rem_euclid(day) as u64;
